@@ -76,20 +76,19 @@ Ltac tr_solve := repeat lazymatch goal with
   | |- tr_ext _ (fold_left _ _ _) => fail
   | |- tr_ext _ _ => eapply tr_ext_frame; [solve [simpl; autorewrite with svf; reflexivity]|]
   end.
-Lemma trace_step cfg s it : SvInv cfg s →
-  tr_ext s (vstep cfg s it) ∨ ∃ sid, it = VConnEnd sid ∧ v_trace (vstep cfg s it) = SvConnEnd sid :: v_trace s.
+Lemma trace_step cfg s it : SvInv cfg s → tr_ext s (vstep cfg s it).
 Proof.
   intros I. unfold vstep. rewrite (vi_not_crashed _ _ I).
   destruct it as [tid op|tid|tid cause|sid|sid|dt|].
-  - left. repeat case_match; tr_solve.
-  - left. destruct (v_thr s !! tid) as [t|] eqn:Ht; [|apply tr_ext_refl]. vrun_leaves t ltac:(apply tr_ext_refl).
+  - repeat case_match; tr_solve.
+  - destruct (v_thr s !! tid) as [t|] eqn:Ht; [|apply tr_ext_refl]. vrun_leaves t ltac:(apply tr_ext_refl).
     all: tr_solve.
-    eapply tr_ext_frame; [|apply tr_ext_refl]. erewrite ns_trace; [|apply net_fold_spec, (inv_fresh_fmap _ _ _ I)]. done.
-  - left. repeat case_match; tr_solve.
-  - left. case_match; tr_solve.
-  - right. eauto.
-  - left. eapply tr_ext_trans; [|apply fire_due_spec; simpl; apply (inv_fresh _ _ I)]. tr_solve.
-  - left. tr_solve.
+    eapply tr_ext_trans; [|apply net_fold_spec, (inv_fresh_fmap _ _ _ I)]. eapply tr_ext_frame; [|apply tr_ext_refl]. done.
+  - repeat case_match; tr_solve.
+  - case_match; tr_solve.
+  - tr_solve.
+  - eapply tr_ext_trans; [|apply fire_due_spec; simpl; apply (inv_fresh _ _ I)]. tr_solve.
+  - tr_solve.
 Qed.
 
 (** ** threads *)
@@ -144,10 +143,10 @@ Proof.
   right. do 3 eexists. split; [exact Ha|]. split; [done|]. done.
 Qed.
 
-(** the network stop: every unfinished client call is cancelled, a ConnEnd goroutine starts for every session *)
+(** the network stop: every unfinished client call is cancelled, a ConnEnd goroutine starts for every open connection *)
 Definition net_stop (s : svstate) : svstate :=
   let s1 := s <| v_thr := net_cancel <$> v_thr s |> in
-  fold_left (λ s '(sid, _), spawn (SConnEnd sid) VDsFlag s) (map_to_list (v_sess s1)) s1.
+  fold_left (λ s sid, vemit (SvConnEnd sid) (spawn (SConnEnd sid) VDsFlag s)) (open_sids (v_trace s1)) s1.
 Lemma net_stop_thr cfg s tid' t' : SvInv cfg s → v_thr (net_stop s) !! tid' = Some t' →
   (∃ t, v_thr s !! tid' = Some t ∧ t' = net_cancel t) ∨
   (v_thr s !! tid' = None ∧ (v_next s ≤ tid')%nat ∧ ∃ sid, t' = SThread (SConnEnd sid) VDsFlag None).
@@ -166,12 +165,12 @@ Proof.
 Qed.
 Record net_frame (s s' : svstate) : Prop := {
   nf_sess : v_sess s' = v_sess s; nf_file : v_file s' = v_file s; nf_shut : v_shut s' = v_shut s; nf_locks : v_locks s' = v_locks s;
-  nf_heap : v_theap s' = v_theap s; nf_trace : v_trace s' = v_trace s; nf_timers : v_timers s' = v_timers s }.
+  nf_heap : v_theap s' = v_theap s; nf_trace : tr_ext s s'; nf_timers : v_timers s' = v_timers s }.
 Lemma net_stop_frame cfg s : SvInv cfg s → net_frame s (net_stop s).
 Proof.
   intros I. unfold net_stop. simpl.
-  match goal with |- context [fold_left _ ?l ?s1] => destruct (net_fold_spec l s1 (inv_fresh_fmap _ _ _ I)) as [? ? ? ? ? ? ? _] end.
-  by split.
+  match goal with |- context [fold_left _ ?l ?s1] => destruct (net_fold_spec l s1 (inv_fresh_fmap _ _ _ I)) as [? ? ? ? ? Htr ? _] end.
+  split; try done.
 Qed.
 
 Lemma thr_step cfg s it tid' t' : SvInv cfg s → v_thr (vstep cfg s it) !! tid' = Some t' →
